@@ -4,7 +4,7 @@ CONSTANTS
  RIds = {1, 2, 3, 4, 5}
  NIds = {1, 2, 3, 4, 5}
  KeyIds = {1, 2}
- CfgSet <- CfgQuick
+ CfgSet <- CfgDeep
  Univ <- MCUniv
  Faulty = "none"
 CONSTRAINT Bounded
